@@ -23,6 +23,8 @@ EXPLANATION = (
     'path of process_message that raises while decoding or validating an update (int()/float() of attacker text, b64decode, assertions) the '
     "element's public value is still the old one - the element is taken from a mirror the real client code built. C16.CHAIN: on re-definition of "
     "an existing property the events' old values must be the previous mirror values and unchanged values must raise nothing."
+    ' C16.ATOMIC also covers the property state: on every raising path of an update (a child failing to decode) a state that has already been replaced must have been announced by a StateUpdate.'
+    ' C16.CONTAIN[mixed]: with plain and coroutine callbacks registered alternately, the plain ones are called inside trigger_event and each scheduled task, run after trigger_event has returned (closures late-bound), invokes its own callback once with the event.'
 )
 NOT_DECIDED = "the chain property over all streams (it follows per step from IFF+CHAIN); callbacks registered or removed during dispatch."
 ASSUMPTIONS = ["callbacks do not mutate the registry while trigger_event iterates it (outside the property's quantifier)"]
@@ -203,6 +205,47 @@ def rule_contain(ctx):
     paths = explore(p, run2, o)
     ok = all(pa.outcome == "return" and len(pa.calls(method="create_task")) == 1 for pa in paths)
     ctx.check(ok, "C16.CONTAIN", f.short + "[coroutine]", "a coroutine callback is scheduled as one task", "a coroutine callback is not scheduled as exactly one task", fi=f, text="coroutine")
+    # ... and when the loop later runs the scheduled tasks, each of them invokes ITS callback with the event: the tasks are
+    # run here after trigger_event has returned (whatever they close over has its final value by then)
+    order = ["co1", "fn2", "co3", "fn4"]
+
+    def run3(it: Interp):
+        c = make_client(p, [make_callback(p, label=l) for l in order], it=it)
+        ev = Obj(p.cls("indi.client.events.ValueUpdate"), {"device": Const(None), "vector": Const(None), "element": Const(None)}, label="event")
+        it.ev = ev
+        it.run_function(Fn(f, c), [ev], {})
+        tasks = [e.data["args"][0] for e in it.events if e.kind == "call" and is_call(e.data["term"], method="create_task") and e.data["args"]]
+        # calling a coroutine function only creates the coroutine: it counts when the task that wraps it runs
+        it.direct = [l for l, e, cev in delivered_events(type("P", (), {"events": it.events})()) if not any(cev.data["term"] is t for t in tasks)]
+        it.ntasks = len(tasks)
+        it.later = []
+        for t in tasks:
+            if not (isinstance(t, Term) and t.op == "call"):
+                raise Undecided("a scheduled task is not a call")
+            callee = t.args[0]
+            if isinstance(callee, Obj) and callee.label.startswith("<fn:"):
+                it.later.append((callee.label[4:-1], bool(t.args[1]) and t.args[1][0] is ev))
+            elif isinstance(callee, Fn):
+                n0 = len(it.events)
+                it.run_function(callee, list(t.args[1]), {k: v for k, v in t.args[2] if k is not None})
+                for e in it.events[n0:]:
+                    if e.kind == "call" and isinstance(e.data["callee"], Obj) and e.data["callee"].label.startswith("<fn:"):
+                        it.later.append((e.data["callee"].label[4:-1], bool(e.data["args"]) and e.data["args"][0] is ev))
+            else:
+                raise Undecided(f"a scheduled task calls {show(callee)[:40]}")
+        return Const(None)
+
+    o = client_opts(p)
+    base_fm = o["foreign_model"]
+    o["foreign_model"] = lambda it, callee, a, k: Const(isinstance(a[0], Obj) and a[0].label.startswith("<fn:co")) if isinstance(callee, Foreign) and callee.dotted.endswith("iscoroutinefunction") and a else base_fm(it, callee, a, k)
+    paths = explore(p, run3, o)
+    ctx.paths_enumerated += len(paths)
+    if len(paths) != 1 or paths[0].outcome != "return":
+        ctx.undecided("C16.CONTAIN", f.short + "[mixed]", f"dispatch to plain and coroutine callbacks not decided by constant evaluation ({len(paths)} paths)", fi=f)
+    else:
+        it_ = paths[0].interp
+        okm = it_.direct == ["fn2", "fn4"] and it_.later == [("co1", True), ("co3", True)]
+        ctx.check(okm, "C16.CONTAIN", f.short + "[mixed]", "plain callbacks called at once, each coroutine callback invoked once with the event when its task runs", f"with callbacks registered in the order {order} (co* are coroutine functions) and all matching, trigger_event calls {it_.direct} directly and the {it_.ntasks} scheduled tasks, run afterwards, invoke {it_.later}; expected ['fn2', 'fn4'] directly and co1, co3 once each with the event", fi=f, text="mixed-dispatch", witness=f"callbacks {order}, one matching event")
 
 
 def rule_registry(ctx):
